@@ -40,10 +40,10 @@ func (c *Conversation) processAKE(msgType byte, msg []byte) (toSend []messageWit
 		c.ake.state, toSendSingle, err = c.ake.state.receiveDHKeyMessage(c, msg)
 	case msgTypeRevealSig:
 		c.ake.state, toSendSingle, err = c.ake.state.receiveRevealSigMessage(c, msg)
-		toSendExtra, _ = c.maybeRetransmit()
+		toSendExtra = c.retransmitAfterAKE()
 	case msgTypeSig:
 		c.ake.state, toSendSingle, err = c.ake.state.receiveSigMessage(c, msg)
-		toSendExtra, _ = c.maybeRetransmit()
+		toSendExtra = c.retransmitAfterAKE()
 	default:
 		err = newOtrErrorf("unknown message type 0x%X", msgType)
 	}
@@ -54,6 +54,17 @@ func (c *Conversation) processAKE(msgType byte, msg []byte) (toSend []messageWit
 	toSend = compactMessagesWithHeader(messages...)
 
 	return
+}
+
+// retransmitAfterAKE releases queued messages once a session exists. Before that nothing
+// can be encrypted, and the queue must be kept rather than consumed by a failing attempt.
+func (c *Conversation) retransmitAfterAKE() []messageWithHeader {
+	if c.msgState != encrypted {
+		return nil
+	}
+
+	toSend, _ := c.maybeRetransmit()
+	return toSend
 }
 
 type authStateBase struct{}
